@@ -55,7 +55,7 @@ def s19_tracevalidate(ctx):
 
     res = StreamResult("S19-tracevalidate", rule="valid and planted-defect maps written as GeoJSON / GPKG / Shapefile, with and without CRS, with attribute columns x "
                        "allow-fix / only-area-validation / allow-empty-area / snap threshold x output locations (fresh, existing file replaced, output named like a "
-                       "prefix of the inputs, in place, next to the trace input under its base name with another extension); output compared with the library result, every other file in the directory hashed before/after; "
+                       "prefix of the inputs, in place, next to the trace input under its base name with another extension); every Shapefile output and half of the others VALIDATED AGAIN (other validator selection) into a new file; outputs compared with the library result, every other file in the directory hashed before/after; "
                        "non-trivial = run whose library result has an error")
     rng = rng_for(ctx.seed, "S19")
     runner = CliRunner()
@@ -135,6 +135,43 @@ def s19_tracevalidate(ctx):
                         problems.append("written geometry differs from the library result")
             if problems:
                 res.disagreements.append(Disagreement("S19-tracevalidate", case, "library result; inputs untouched", problems, True, "; ".join(problems)[:400]))
+                continue
+            # HISTORY: the written file (it carries the error column -- truncated to 10 characters by the Shapefile driver) is validated AGAIN, with
+            # the other validator selection so that the fresh errors differ from the stale ones: the second output must again be the library's answer
+            # for the files it was given, with no column beyond those of its input
+            if r.exit_code == 0 and op.exists() and mode != "samestem" and (driver == "ESRI Shapefile" or rng.random() < 0.5):
+                op2 = d / "again" / f"revalidated{EXT[driver]}"
+                op2.parent.mkdir(exist_ok=True)
+                only2 = not opts["only_area"]
+                args2 = ["tracevalidate", str(op), str(ap), "--output", str(op2), "--snap-threshold", str(opts["snap"]), "--no-summary",
+                         "--allow-fix" if opts["allow_fix"] else "--no-allow-fix", "--allow-empty-area"] + (["--only-area-validation"] if only2 else [])
+                case2 = dict(case, rerun={"only_area": only2})
+                first = gpd.read_file(op)
+                lt2 = read_geofile(op)
+                lib2 = Validation(lt2, la, op.stem, opts["allow_fix"], SNAP_THRESHOLD=opts["snap"]).run_validation(
+                    choose_validators=(TargetAreaSnapValidator,) if only2 else None, allow_empty_area=True)
+                before2 = sha_dir(d, skip={p_ for p_ in d.rglob("*") if p_.parent == op2.parent})
+                r2 = runner.invoke(APP, args2)
+                after2 = sha_dir(d, skip={p_ for p_ in d.rglob("*") if p_.parent == op2.parent})
+                res.distribution["revalidated"] = res.distribution.get("revalidated", 0) + 1
+                res.distribution["revalidated " + driver] = res.distribution.get("revalidated " + driver, 0) + 1
+                problems2 = []
+                if r2.exit_code != 0 or not op2.exists():
+                    problems2.append(f"second run: exit code {r2.exit_code}: {str(r2.exception)[:120]}")
+                elif before2 != after2:
+                    problems2.append("second run: files other than its output changed")
+                else:
+                    out2 = gpd.read_file(op2)
+                    extra = [c for c in out2.columns if c not in first.columns]
+                    if extra:
+                        problems2.append(f"second run: columns {extra} appear that neither its input nor the library result has (columns {list(out2.columns)})")
+                    col2 = "VALIDATION_ERRORS" if "VALIDATION_ERRORS" in out2.columns else "VALIDATION" if "VALIDATION" in out2.columns else None
+                    if len(out2) != len(lib2) or col2 is None:
+                        problems2.append(f"second run: {len(out2)} rows / error column {col2}, library {len(lib2)} rows")
+                    else:
+                        pend.append((case2, [list(e) for e in lib2["VALIDATION_ERRORS"]], list(out2[col2])))
+                if problems2:
+                    res.disagreements.append(Disagreement("S19-tracevalidate", case2, "library result for the re-validated file", problems2, True, "; ".join(problems2)[:400]))
         # error text = Python str(tuple) of the library errors, via the model
         reqs = [f"tuplerepr items={';'.join(enc(s) for s in e)}" for _, errs, _ in pend for e in errs]
         resps = ctx.driver.batch(reqs) if reqs else []
